@@ -62,6 +62,31 @@ func TestGovcAudit(t *testing.T) {
 			}
 		}
 	}
+	// assumed facts about clean relative paths (axioms clean_join_dir_base, clean_inside_dir, clean_nonempty)
+	for _, s := range auditStrings(5) {
+		if s != filepath.Clean(s) {
+			continue
+		}
+		n++
+		if len(s) == 0 {
+			fail("Clean fixpoint %q is empty", s)
+		}
+		if filepath.IsAbs(s) {
+			continue
+		}
+		d := filepath.Dir(s)
+		if d == "." {
+			d = ""
+		}
+		if filepath.Join(d, filepath.Base(s)) != s {
+			fail("Join(Dir,Base) != p for %q", s)
+		}
+		if s != "." && d != "" {
+			if !(len(d) < len(s) && s[len(d)] == '/' && s[:len(d)] == d) {
+				fail("%q is not inside its directory %q", s, d)
+			}
+		}
+	}
 	short := auditStrings(3)
 	for _, s := range short {
 		for _, p := range short {
